@@ -266,6 +266,10 @@ def run(ctx: Ctx):
     ctx.assume("numpy.searchsorted(p, x) is the number of points below x on an increasing grid")
     r_affine(ctx, model, tr)
     r_window(ctx, model)
+    from ..sites import no_memoisation
+    ctx.rule("L-fresh: no caching decorator on any function of pygaps.characterisation.")
+    no_memoisation(ctx, load(ctx.root), "C14", "L-fresh", ('pygaps.characterisation.',),
+                   "a cached constant or fit survives a change of the isotherm")
 
 
 META = {
